@@ -230,7 +230,10 @@ func c20Describe(p c20Plan, timeout, margin time.Duration) (*common.Fail, string
 		if !common.SameValue(wantSvc, res) {
 			return common.Failf("result-wrong", "DescribeTunnel returned %s; the first description response the queried server sent decodes to %s", common.Show(res), common.Show(wantSvc)), ""
 		}
-		if at, sent := sentAt[firstMatch]; sent && at.Sub(t0) > timeout+margin {
+		if at, sent := sentAt[firstMatch]; sent && at.Sub(t0) > timeout+c20Slack {
+			if stalled {
+				return nil, "scheduler stall during the call (control sleep overshot)"
+			}
 			return common.Failf("result-late", "DescribeTunnel returned a response that was sent %v after the call started; its timeout is %v", at.Sub(t0), timeout), ""
 		}
 	}
@@ -367,7 +370,7 @@ func c20Discover(p c20Plan, timeout, margin time.Duration) (*common.Fail, string
 		if !used[i] && mt.at < timeout-margin && mt.at > 30*time.Millisecond {
 			return common.Failf("match-missed", "search response #%d was sent %v after the call started (timeout %v, margin %v) but is not among the %d results", i, mt.at, timeout, margin, len(res)), ""
 		}
-		if used[i] && mt.at > timeout+margin {
+		if used[i] && mt.at > timeout+c20Slack && time.Duration(ctl.over.Load()) <= c20Slack/4 {
 			return common.Failf("result-late", "search response #%d was sent %v after the call started, beyond the timeout %v, yet it is among the results", i, mt.at, timeout), ""
 		}
 	}
@@ -410,6 +413,28 @@ func genPlanC20(rt *rapid.T) c20Plan {
 	if p.Call == "discover" {
 		other = "descrres"
 		p.Responders = rapid.IntRange(1, 20).Draw(rt, "responders")
+	}
+	if p.TimeoutUs <= 150000 && rapid.IntRange(0, 7).Draw(rt, "chatter") == 0 {
+		// a peer that keeps talking: frames of another service every timeout/2 for well over timeout + slack,
+		// optionally a matching response in the middle of it (far beyond the deadline)
+		k := rapid.SampledFrom([]string{other, "connstateres", "tunnelreq"}).Draw(rt, "chatter-kind")
+		gap := p.TimeoutUs / 2
+		if gap < 20000 {
+			gap = 20000
+		}
+		late := rapid.Bool().Draw(rt, "chatter-late-match")
+		for t := 0; t < p.TimeoutUs+1_600_000; t += gap {
+			b, _ := common.RefEncode(common.GenFrame(rt, k, "ldata-ind-app"))
+			if len(b) > 1024 {
+				continue
+			}
+			p.Steps = append(p.Steps, c20Step{AtUs: t, Kind: "other", Hex: hex.EncodeToString(b), From: 0})
+			if late && t > p.TimeoutUs+1_200_000 {
+				p.Steps = append(p.Steps, c20Step{AtUs: t + 1, Kind: "match", Hex: genMatch(rt, p.Call), From: 0})
+				late = false
+			}
+		}
+		return p
 	}
 	n := rapid.IntRange(0, 12).Draw(rt, "steps")
 	t := 0
